@@ -542,12 +542,23 @@ def normalise(program):
                             if h.node in body:
                                 body.remove(h.node)
     program._allfuncs = None
+    stats["constants_folded"] = 0
+    for f in program.all_funcs():
+        try:
+            stats["constants_folded"] += inline.fold_constants(f.node)
+        except Exception as e:
+            skipped.append("folding %s: %s" % (f.qualname, type(e).__name__))
     for f in program.all_funcs():
         try:
             stats["propagated_uses"] += inline.propagate_paths(f)
         except Exception as e:
             skipped.append("paths %s: %s" % (f.qualname, type(e).__name__))
             continue
+    for f in program.all_funcs():
+        try:
+            inline.order_lines(f.node)
+        except Exception as e:
+            skipped.append("lines %s: %s" % (f.qualname, type(e).__name__))
     stats["setter_calls_restored"] = setters
     stats["passes_skipped_on_error"] = skipped
     program.normalised = stats
